@@ -280,6 +280,8 @@ def main() -> None:
                     if len(cands) >= cmd.get("max", 200):
                         break
                 _reply({"candidates": cands})
+            elif c == "counterfactual":
+                _reply({"scenario": ENGINE.counterfactual(cmd["name"], cmd["scenario"])})
             elif c == "gen":
                 rng = random.Random(cmd["seed"])
                 s = ENGINE.generate(rng, cmd["tier"], cmd.get("i", 0))
